@@ -6,6 +6,11 @@ Clauses (per generated case, value-first):
                 block names (in order), multiplicities and values (floats compared bit-exactly, vectors by class+components)
   fill-bytes    Block(fill_missing=True) with unset variables encodes each as its zero value at template width
   fill-decode   ... and the datagram decodes eagerly to zero values for the unset variables
+                (also with exactly one block of a repeated block list marked -- first / middle / last -- and the others complete)
+  encode-independent / decode-independent
+                after any sequence of rejected serialize()/deserialize() calls on the same long-lived codec object (unset variable
+                late in the body, unknown block, out-of-range value, wrong Multiple count; truncated / unknown-number datagrams),
+                a conformant message still encodes to the reference bytes and decodes to its values
 """
 from __future__ import annotations
 
@@ -110,9 +115,13 @@ def _body_len(case, gen) -> int:
     return len(refwire.encode_body(gen.templates[case["name"]], rm["blocks"], rm["extra"]))
 
 
-def check_case(part: Part, gen: msggen.Gen, case: dict, ser, de_eager, de_lazy):
+def check_case(part: Part, gen: msggen.Gen, case: dict, ser, de_eager, de_lazy, pre=None):
     name = case["name"]
     witness = {"kind": "case", "seed": gen.seed, "case": case}
+    sfx = ""
+    if pre:
+        witness = {"kind": "history", "seed": gen.seed, "case": case, "pre": list(pre)}
+        sfx = ":after-rejected-" + "+".join(sorted({p.split(":")[0] for p in pre}))
     if case["flags"] & 0x80 and _body_len(case, gen) > ZERO_CAP:
         part.count("skipped_zerocoded_over_cap")  # out of the decoder's stated domain (C03 size cap)
         return
@@ -121,13 +130,13 @@ def check_case(part: Part, gen: msggen.Gen, case: dict, ser, de_eager, de_lazy):
     try:
         data = bytes(ser.serialize(msg))
     except Exception as e:
-        part.violation("roundtrip", f"{name}:serialize", witness, f"serialize raised {e!r}")
+        part.violation("encode-independent" if pre else "roundtrip", f"{name}:serialize{sfx}", witness, f"serialize raised {e!r}")
         return
     ref = refwire.encode(gen.ref_message(case))
     if data != ref:
         i = next((j for j in range(min(len(data), len(ref))) if data[j] != ref[j]), min(len(data), len(ref)))
         site = _site_of_offset(gen, case, i) if not case["flags"] & 0x80 else f"{name}:zerocoded-body"
-        part.violation("ref-bytes", site, witness, f"first difference at offset {i}: impl {data[i:i + 8].hex()} ref {ref[i:i + 8].hex()} "
+        part.violation("encode-independent" if pre else "ref-bytes", site + sfx, witness, f"first difference at offset {i}: impl {data[i:i + 8].hex()} ref {ref[i:i + 8].hex()} "
                                                   f"(len {len(data)} vs {len(ref)})")
     expected = gen.expected_values(case)
     for mode, de in (("eager", de_eager), ("deferred", de_lazy)):
@@ -135,7 +144,13 @@ def check_case(part: Part, gen: msggen.Gen, case: dict, ser, de_eager, de_lazy):
             dec = de.deserialize(data)
             dec.blocks  # force the lazy parse
         except Exception as e:
-            part.violation("roundtrip", f"{name}:deserialize", witness, f"{mode}: raised {e!r}")
+            part.violation("decode-independent" if pre else "roundtrip", f"{name}:deserialize{sfx}", witness, f"{mode}: raised {e!r}")
+            continue
+        if pre:
+            sub = Part()
+            compare_message(sub, dec, case, expected, mode, witness)
+            for v in sub.viol.values():
+                part.violation("decode-independent", v["site"] + sfx, witness, v["detail"])
             continue
         compare_message(part, dec, case, expected, mode, witness)
     part.outcome((len(data), data[:12]))
@@ -216,6 +231,63 @@ def check_fill(part: Part, gen: msggen.Gen, name: str, ser, de_eager):
         part.mark_nontrivial(("fill", name, site_vars))
 
 
+def check_fill_mixed(part: Part, gen: msggen.Gen, name: str, ser, de_eager):
+    """One block of a repeated block list marked for default-filling (all its variables unset), the others complete and unmarked."""
+    tmpl = gen.templates[name]
+    for b in tmpl.blocks:
+        n = b.number if b.kind == "Multiple" else (3 if b.kind == "Variable" else 1)
+        if n < 2 or not b.vars:
+            continue
+        base = {"name": name, "flags": 0, "packet_id": 1, "acks": (), "extra": b"", "blocks": gen.blocks(tmpl, 1, {b.name: n}), "tag": "fillmix"}
+        for idx in sorted({0, n // 2, n - 1}):
+            part.count("evaluations")
+            part.count("fill_mixed_cases")
+            skip = {(b.name, idx, v.name) for v in b.vars}
+            witness = {"kind": "fillmix", "seed": gen.seed, "name": name, "block": b.name, "index": idx, "of": n}
+            pos = "first" if idx == 0 else ("last" if idx == n - 1 else "middle")
+            site = f"fill-mixed:{b.kind}:{pos}-marked"
+            msg = gen.lib_message(base, skip_vars=skip, fill_blocks={(b.name, idx)})
+            try:
+                data = bytes(ser.serialize(msg))
+            except Exception as e:
+                part.violation("fill-bytes", site, witness, f"{name}.{b.name}[{idx} of {n}] marked fill_missing, others complete: raised {e!r}")
+                continue
+            ref = refwire.encode(gen.ref_message(base, skip_vars=skip))
+            if data != ref:
+                part.violation("fill-bytes", site, witness, f"{name}.{b.name}[{idx} of {n}]: datagram {len(data)} bytes differs from the "
+                                                            f"template-prescribed {len(ref)} bytes")
+                continue
+            try:
+                dec = de_eager.deserialize(data)
+                got = dec.blocks[b.name][idx]
+                for v in b.vars:
+                    if not is_zero_value(got.vars[v.name], v):
+                        part.violation("fill-decode", site, witness, f"{name}.{b.name}[{idx}].{v.name} decoded {got.vars[v.name]!r}, not the zero value")
+            except Exception as e:
+                part.violation("fill-decode", site, witness, f"raised {e!r}")
+            part.mark_nontrivial(("fillmix", name, b.name, idx))
+
+
+rejected_ops = msggen.rejected_ops
+
+
+def check_history(part: Part, gen: msggen.Gen, name: str, ser, de_eager, de_lazy):
+    """A conformant message after every single rejected call and after all of them in a row, on the same codec objects."""
+    ops = rejected_ops(gen, name)
+    tmpl = gen.templates[name]
+    cases = [{"name": name, "flags": f, "packet_id": 3, "acks": (), "extra": b"", "blocks": gen.blocks(tmpl, 0, {}), "tag": "hist"} for f in (0, 0x80)]
+    seqs = [[lab] for lab, _ in ops] + ([[lab for lab, _ in ops]] if len(ops) > 1 else [])
+    fns = dict(ops)
+    for seq in seqs:
+        for case in cases:
+            raised = [lab for lab in seq if fns[lab](ser, de_eager, de_lazy)]
+            part.count("history_cases")
+            part.count("history_rejections", len(raised))
+            check_case(part, gen, case, ser, de_eager, de_lazy, pre=seq)
+            if raised:
+                part.mark_nontrivial(("hist", name, tuple(raised), case["flags"]))
+
+
 def _work(names: List[str]):
     gen = _G
     part = Part()
@@ -244,6 +316,8 @@ def _work(names: List[str]):
         for c in gen.count_variants(name):
             check_case(part, gen, c, ser, de_eager, de_lazy)
         check_fill(part, gen, name, ser, de_eager)
+        check_fill_mixed(part, gen, name, ser, de_eager)
+        check_history(part, gen, name, ser, de_eager, de_lazy)
     return part.dump()
 
 
@@ -262,7 +336,7 @@ def run(run: Run):
     run.rule = ("for each of the %d templates: value rows 0..L-1 (row k gives every variable the k-th element of its wire-type alphabet, "
                 "so every alphabet element of every variable occurs) x each-choice header variants; Variable-block counts {0,2,255} + mixed "
                 "counts; every trailing-block omission; full header cross product (16 flag subsets x 3 ids x 4 ack lists x 4 extras) on %d basis "
-                "templates%s; thorough adds every repeat count 0..255 on the basis templates and 65535-byte Variable-2 fields; default-fill: all variables unset + each single variable unset per template. distinct_nontrivial = distinct "
+                "templates%s; thorough adds every repeat count 0..255 on the basis templates and 65535-byte Variable-2 fields; default-fill: all variables unset + each single variable unset per template + exactly one block (first/middle/last) of each repeated block list marked; codec histories: a conformant message (plain and zero-coded) after each of up to 7 kinds of rejected serialize/deserialize call and after all of them in a row on the same serializer/deserializer objects. distinct_nontrivial = distinct "
                 "(template, ack/zerocode flags, block counts, row/variant tag) combinations" %
                 (len(names), len(msggen.HEADER_BASIS), " (255-ack / 255-extra rows dropped in quick tier)" if _QUICK else ""))
     run.assumptions += [
@@ -284,6 +358,16 @@ def replay(w):
     de_lazy = UDPMessageDeserializer(settings=Settings())
     if w["kind"] == "fill":
         check_fill(part, gen, w["name"], ser, de_eager)
+    elif w["kind"] == "fillmix":
+        check_fill_mixed(part, gen, w["name"], ser, de_eager)
+    elif w["kind"] == "history":
+        c = w["case"]
+        c["acks"] = tuple(c["acks"])
+        c["blocks"] = [(b, rows) for b, rows in c["blocks"]]
+        fns = dict(rejected_ops(gen, c["name"]))
+        for lab in w["pre"]:
+            fns[lab](ser, de_eager, de_lazy)
+        check_case(part, gen, c, ser, de_eager, de_lazy, pre=w["pre"])
     else:
         c = w["case"]
         c["acks"] = tuple(c["acks"])
